@@ -58,21 +58,16 @@ Proof.
   apply plane_fraunhofer_ext. exact He.
 Qed.
 
-Lemma regular_chain_multiply (ps : list (plane S)) w w' : regular_chain ps w w' -> chain_multiply ps w = Ok w'.
-Proof. induction 1 as [|P ps w a w'' M N R IH]; cbn [chain_multiply]; [reflexivity|]. rewrite M. exact IH. Qed.
+Lemma fsized_sized (f : field S) : fsized f -> sized S f.
+Proof. unfold fsized, sized. destruct (fd f) as [v|d]; [contradiction|]. intros H. exists d. now split. Qed.
 
-Lemma no_ones_sized (fs : list (field S)) : no_ones fs -> forall f, In f fs -> sized S f.
-Proof. intros H f Hf. destruct (H f Hf) as [V N]. unfold fwell in V. unfold sized.
-  destruct (fd f) as [v|d]; [cbn in N; discriminate|]. exists d. now split. Qed.
-
-(* C03, end to end: Wavefront * P1 * ... * Pk -> propagate_dft gives the same complex field at every
-   output sample whether every Pi is given by its segment masks or by their union *)
+(* C03, end to end: Wavefront * P1 * ... * Pk -> propagate_dft gives the same complex field and intensity at
+   every output sample whether every Pi is given by its segment masks or by their union *)
 Theorem segmented_eq_monolithic (segs monos : list (plane S)) (w ws wm : pwf S) dur duc shape pshape os
         dxr dxc n m Sr Sc Pr Pc B :
-  Forall2 (fun Ps Pm => exists n m, partition_of Ps Pm n m) segs monos ->
+  Forall2 (fun Ps Pm => exists n m, partition_of Ps Pm n m) segs monos -> segs <> [] ->
   (forall f, In f (pw_data w) -> fwell f) ->
-  regular_chain segs w ws -> regular_chain monos w wm ->
-  no_ones (pw_data ws) -> no_ones (pw_data wm) ->
+  chain_multiply segs w = Ok ws -> chain_multiply monos w = Ok wm ->
   (forall f, In f (pw_data ws) -> in_box B (fextent f)) -> (forall f, In f (pw_data wm) -> in_box B (fextent f)) ->
   pw_shape ws = Some (n, m) -> pw_pix ws = Some (dxr, dxc) -> pw_focal ws <> FNone ->
   match shape with None => (n, m) | Some s => s end = (Sr, Sc) ->
@@ -85,9 +80,18 @@ Theorem segmented_eq_monolithic (segs monos : list (plane S)) (w ws wm : pwf S) 
     wintensity v1 = Ok i1 /\ wintensity v2 = Ok i2 /\
     forall i j, 0 <= i < Sr * os -> 0 <= j < Sc * os -> get o1 i j = get o2 i j /\ get i1 i j = get i2 i j.
 Proof.
-  intros Hp Hf R1 R2 N1 N2 B1 B2 Hsh Hpx Hfo Hshape Hpshape HSr HSc HPr HPc Hos HbR HbC.
+  intros Hp Hne Hf R1 R2 B1 B2 Hsh Hpx Hfo Hshape Hpshape HSr HSc HPr HPc Hos HbR HbC.
   destruct (chain_partition S Sring segs monos Hp w ws wm Hf R1 R2) as (El & Es & Epx & Efo & Ee).
-  unfold chain_propagate. rewrite (regular_chain_multiply _ _ _ R1), (regular_chain_multiply _ _ _ R2). cbn [rbind].
+  assert (Ok1 : forall P, In P segs -> exists n m, plane_ok P n m).
+  { clear - Hp. induction Hp as [|Ps Pm l1 l2 (n & m & Hq) F IH]; intros P HP; [destruct HP|].
+    destruct HP as [<-|HP]; [|now apply IH]. exists n, m. now destruct Hq as (_ & _ & _ & _ & O1 & _). }
+  assert (Ok2 : forall P, In P monos -> exists n m, plane_ok P n m).
+  { clear - Hp. induction Hp as [|Ps Pm l1 l2 (n & m & Hq) F IH]; intros P HP; [destruct HP|].
+    destruct HP as [<-|HP]; [|now apply IH]. exists n, m. now destruct Hq as (_ & _ & _ & _ & _ & O2 & _). }
+  assert (Hne2 : monos <> []) by (destruct Hp; [congruence|discriminate]).
+  pose proof (chain_multiply_sized S Sring segs Ok1 Hne w ws Hf R1) as N1.
+  pose proof (chain_multiply_sized S Sring monos Ok2 Hne2 w wm Hf R2) as N2.
+  unfold chain_propagate. rewrite R1, R2. cbn [rbind].
   unfold to_wavefront. rewrite <- Es, <- Efo, Hsh.
   assert (Hgo : forall z : option Qc,
     let a := mkWf (pw_lam ws) (pw_pix ws) z (n, m) PtPupil (pw_data ws) in
@@ -103,9 +107,9 @@ Proof.
     destruct (propagate_same_plane (@no_shift S) a b dur duc shape pshape os None dxr dxc Sr Sc Pr Pc (0, Sr * os - 1, 0, Sc * os - 1) B)
       as (v1 & v2 & o1 & o2 & i1 & i2 & E1 & E2 & S1 & S2 & F1 & F2 & Nn & Nm & I1 & I2 & G); subst a b; cbn [wwl wfocal wshape wptype wps wdata];
       try assumption; try reflexivity; try congruence; try discriminate.
-    - intros f Hf'. split; [reflexivity|]. split; [now apply (no_ones_sized _ N1)|now apply B1].
-    - intros f Hf'. split; [reflexivity|]. split; [now apply (no_ones_sized _ N2)|now apply B2].
-    - intros r c. rewrite <- !(no_ones_ec S Sring) by assumption. apply Ee.
+    - intros f Hf'. split; [reflexivity|]. split; [now apply fsized_sized, N1|now apply B1].
+    - intros f Hf'. split; [reflexivity|]. split; [now apply fsized_sized, N2|now apply B2].
+    - intros r c. rewrite <- !(sized_ec S Sring) by assumption. apply Ee.
     - exists v1, v2, o1, o2, i1, i2. repeat (split; [assumption|]). exact G. }
   destruct (pw_focal ws) as [| |q]; [apply Hgo|congruence|apply Hgo].
 Qed.
